@@ -182,6 +182,9 @@ func VerifHarness_FrameCall() {
 			if preKind == 3 || preKind == 6 {
 				verifAssert(left == 0, "C06: a non-revert pre-join-point failure forfeits the gas")
 			}
+			if verifIsRevert(err) {
+				verifAssert(left == preLeft, "C06: a reverting pre join point hands back exactly what it left")
+			}
 		} else {
 			verifAssert(iPre < iRun && (iPost < 0 || iRun < iPost), "C05: pre, code, post in this order")
 			verifAssert(runGas == preLeft, "C06: the callee starts with exactly what the pre join point left")
@@ -243,6 +246,7 @@ func VerifHarness_FrameCall() {
 	ct := tr.CallTree()
 	verifAssert(ct.count == expectedIndex+1, "C07: exactly one node per call attempt")
 	verifAssert(ct.Current() == cursorBefore, "C07: the cursor is back where it was")
+	verifAssert(ct.Current() == cursorBefore && evm.depth == int(depth) && evm.interpreter.readOnly == staticCtx, "C03: cursor, depth and static flag are back to rest on every exit of the frame")
 	node := ct.FindCall(expectedIndex)
 	verifAssert(node != nil && node.Index == expectedIndex, "C07: lookup by index returns the node carrying it")
 	verifAssert(node.Parent == cursorBefore, "C07: parent is the frame that issued the call")
